@@ -387,7 +387,23 @@ def gen_hist_directed(rng):
         owner = region("c")
         owner["states"]["h"] = hist
         feats.add("history:" + hist["history"] + ":cmp")
+    # sometimes the owner declares BOTH kinds of history child (they share one record); `h` stays the one targeted
+    # by BACK, the other one (`g`) is declared before or after it and is targeted by BACK2
+    dual = rng.random() < 0.4
+    if dual:
+        other = {"type": "history", "history": "shallow" if deep else "deep"}
+        st = owner["states"]
+        h = st.pop("h")
+        if rng.random() < 0.5:
+            st["g"] = other
+            st["h"] = h
+        else:
+            st["h"] = h
+            st["g"] = other
+        feats.add("history:dual")
     cfg = {"id": "m", "initial": rng.choice(["o", "P"]), "states": {"o": {"on": {"BACK": "#m.P.h", "IN": "#m.P"}}, "P": owner}}
+    if dual:
+        cfg["states"]["o"]["on"]["BACK2"] = "#m.P.g"
     owner.setdefault("on", {})["OUT"] = "#m.o"
     # default target sometimes
     paths = []
@@ -425,7 +441,8 @@ def gen_hist_directed(rng):
     events = []
     for _ in range(rng.randint(1, 3)):
         events += [rng.choice(evs) for _ in range(rng.randint(0, 4))]
-        events += rng.choice([["OUT", "BACK"], ["OUT", "IN"], ["OUT", "BACK"], ["OUT", "M1", "BACK"]])
+        events += rng.choice([["OUT", "BACK"], ["OUT", "IN"], ["OUT", "BACK"], ["OUT", "M1", "BACK"]] +
+                             ([["OUT", "BACK2"], ["OUT", "BACK2"], ["OUT", "M2", "BACK2"]] if dual else []))
     feats.add("target:history")
     return cfg, events, sorted(feats)
 
@@ -441,6 +458,30 @@ def gen_case(seed: int, profile: str = "core", idx: int = 0):
     feats = decorate(rng, kn, cfg, paths)
     cfg["maxIterations"] = kn.max_iterations
     events = [rng.choice(kn.events) for _ in range(kn.n_events)]
+    if profile == "parallways" and rng.random() < 0.6 and cfg.get("states"):
+        # the sharpest shape of the family, grafted under the root: on entering the parallel state `pw` two eventless
+        # transitions are enabled in ONE microstep - region r1 leaves `pw` altogether, region r2 moves between siblings
+        # inside r2. Whichever runs first invalidates the other (its source has been exited): the stale one must be skipped.
+        tops = [k for k, v in cfg["states"].items() if v.get("type") != "history"]
+        out = rng.choice(tops)
+        g = rng.choice([None, "g1"])
+        def alw(tag, target):
+            t = {"actions": [f"alw:{tag}"], "target": target}
+            if g:
+                t["guard"] = g
+            return t
+        first, second = ("r1", "r2") if rng.random() < 0.5 else ("r2", "r1")
+        cfg["states"]["pw"] = {"type": "parallel", "entry": ["en:pw"], "exit": ["ex:pw"], "states": {
+            first: {"initial": "a", "entry": [f"en:pw.{first}"], "exit": [f"ex:pw.{first}"],
+                    "states": {"a": {"entry": [f"en:pw.{first}.a"], "exit": [f"ex:pw.{first}.a"], "always": alw(f"pw.{first}.a", "#m." + out)}}},
+            second: {"initial": "c", "entry": [f"en:pw.{second}"], "exit": [f"ex:pw.{second}"],
+                     "states": {"c": {"entry": [f"en:pw.{second}.c"], "exit": [f"ex:pw.{second}.c"], "always": alw(f"pw.{second}.c", "d")},
+                                "d": {"entry": [f"en:pw.{second}.d"], "exit": [f"ex:pw.{second}.d"]}}}}}
+        cfg.setdefault("on", {})
+        ev = rng.choice(kn.events)
+        cfg["on"][ev] = {"target": "#m.pw", "actions": [f"tr::{ev}:pw"]}
+        events[rng.randrange(len(events))] = ev
+        feats = sorted(set(feats) | {"parallways-gadget"})
     gv = {}
     for g in GUARDS:
         r = rng.random()
